@@ -48,6 +48,7 @@ type c07ctx struct {
 	setFn, getFn                                             *ssa.Function
 	srvFns                                                   []*ssa.Function
 	closeFns                                                 map[*ssa.Function]*ssa.Store // functions performing `closed = true` (session close)
+	sessClose                                                map[*ssa.Function]bool       // closeFns + wrappers that always call one on their receiver
 	selMemo                                                  map[*ssa.Function]*c07sel
 	keySeen                                                  map[string]int
 }
@@ -160,8 +161,22 @@ func (x *c07ctx) closedFalse(target ssa.Instruction) EdgePred {
 }
 
 // firstCloseEdge: `closed == false` read under connLock in the critical section
-// that also sets closed = true (only one caller ever crosses it).
+// that also sets closed = true (only one caller ever crosses it) – or, when that
+// section lives in a helper reporting its outcome (`if !e.markClosed() { return }`),
+// the edge on which the helper's result has a value the helper returns only
+// from behind its own first-close edge.
 func (x *c07ctx) firstCloseEdge(cond ssa.Value, pol bool) bool {
+	return x.firstCloseEdgeD(cond, pol, 0)
+}
+
+func (x *c07ctx) firstCloseEdgeD(cond ssa.Value, pol bool, depth int) bool {
+	if call, idx := c07callResult(cond); call != nil {
+		callee := staticCallee(call)
+		if callee == nil || depth >= 2 || len(callee.Blocks) == 0 || !x.p.IsRepoFn(callee) {
+			return false
+		}
+		return x.resultOnlyBehind(callee, idx, pol, func(c ssa.Value, p bool) bool { return x.firstCloseEdgeD(c, p, depth+1) })
+	}
 	if pol || !isLoadOfField(cond, x.fClosed) {
 		return false
 	}
@@ -171,6 +186,69 @@ func (x *c07ctx) firstCloseEdge(cond ssa.Value, pol bool) bool {
 	}
 	st := x.closeFns[l.Parent()]
 	return st != nil && x.la.sameRegion(l, st, x.fConnLock, lockW)
+}
+
+// c07callResult: v is the (idx-th) result of a static call.
+func c07callResult(v ssa.Value) (*ssa.Call, int) {
+	switch y := resolve(v).(type) {
+	case *ssa.Call:
+		if y.Call.Signature() != nil && y.Call.Signature().Results().Len() == 1 {
+			return y, 0
+		}
+	case *ssa.Extract:
+		if call, ok := y.Tuple.(*ssa.Call); ok {
+			return call, y.Index
+		}
+	}
+	return nil, -1
+}
+
+// resultOnlyBehind: the boolean result #idx of fn has the value `val` on at
+// least one return, and every return on which it may have that value (i.e. is
+// not the constant !val) lies behind an edge accepted by pred.
+func (x *c07ctx) resultOnlyBehind(fn *ssa.Function, idx int, val bool, pred EdgePred) bool {
+	any := false
+	good := true
+	allInstrs(fn, func(in ssa.Instruction) {
+		r, isRet := in.(*ssa.Return)
+		if !isRet || r.Block() == fn.Recover {
+			return
+		}
+		res := retResults(r)
+		if idx >= len(res) || res[idx] == nil {
+			good = false
+			return
+		}
+		if isConstBool(res[idx], !val) {
+			return
+		}
+		any = true
+		if !guardedBy(r, pred) {
+			good = false
+		}
+	})
+	return any && good
+}
+
+// defIs: v is target, seen through conversions and loads of local variables
+// (named results spilled by defer have several stores: reaching definitions).
+func c07defIs(v, target ssa.Value) bool {
+	if target == nil {
+		return false
+	}
+	if resolve(v) == target {
+		return true
+	}
+	defs, ok := c07defs(v)
+	if !ok || len(defs) == 0 {
+		return false
+	}
+	for _, d := range defs {
+		if resolve(d) != target {
+			return false
+		}
+	}
+	return true
 }
 
 func (x *c07ctx) connNilEdge(cond ssa.Value, pol bool) bool {
@@ -274,10 +352,46 @@ func (x *c07ctx) isSessionClose(in ssa.Instruction, pred func(ssa.Value) bool) b
 		return false
 	}
 	f := staticCallee(ci)
-	if f == nil || x.closeFns[f] == nil || len(ci.Common().Args) == 0 {
+	if f == nil || !x.sessClose[f] || len(ci.Common().Args) == 0 {
 		return false
 	}
 	return pred == nil || pred(ci.Common().Args[0])
+}
+
+// findSessionCloseFns: the session-close functions are those performing
+// `closed = true` plus their wrappers – functions every path of which calls a
+// session-close function on their own receiver / first parameter
+// (`CloseWithErr` → `markClosed`).
+func (x *c07ctx) findSessionCloseFns() {
+	x.sessClose = map[*ssa.Function]bool{}
+	for fn := range x.closeFns {
+		x.sessClose[fn] = true
+	}
+	for round := 0; round < 2; round++ {
+		var add []*ssa.Function
+		for _, fn := range x.srvFns {
+			if x.sessClose[fn] || len(fn.Params) == 0 || len(fn.Blocks) == 0 || namedOf(fn.Params[0].Type()) != x.entT {
+				continue
+			}
+			self := fn.Params[0]
+			onSelf := func(in ssa.Instruction) bool {
+				return x.isSessionClose(in, func(v ssa.Value) bool { return resolve(v) == ssa.Value(self) })
+			}
+			any := false
+			allInstrs(fn, func(in ssa.Instruction) {
+				if onSelf(in) {
+					any = true
+				}
+			})
+			if any && len(exitsReachableAvoiding(fn, nil, onSelf)) == 0 {
+				add = append(add, fn)
+			}
+		}
+		for _, fn := range add {
+			x.sessClose[fn] = true
+			x.c.Saw(fnName(fn))
+		}
+	}
 }
 
 func c07resultIdx(sig *types.Signature, want func(types.Type) bool) int {
@@ -310,7 +424,7 @@ func c07errEdge(call *ssa.Call) EdgePred {
 			return false
 		}
 		v, isNil, ok := nilTest(cond, pol)
-		return ok && !isNil && resolve(v) == errv
+		return ok && !isNil && c07defIs(v, errv)
 	}
 }
 
@@ -815,6 +929,7 @@ func checkC07(c *Check) {
 		c.Unres("the session-close function (no `closed = true` store on udpSessionEntry)")
 		return
 	}
+	x.findSessionCloseFns()
 
 	x.r1r3stores()
 	x.r2()
@@ -950,7 +1065,7 @@ func (x *c07ctx) r2() {
 		}
 		c.Req(!leak, key+":closes-socket", r2, p.InstrPos(st), "after closed = true a return is reachable with the socket neither nil nor closed (the socket leaks)")
 		exits := exitsReachableAvoiding(fn, st, func(in ssa.Instruction) bool { return x.callsExit(in, 0) })
-		c.Req(len(exits) == 0, key+":calls-exit", r2, p.InstrPos(st), "after closed = true a return is reachable without calling ExitFunc (the entry stays in the session table)")
+		c.Req(len(exits) == 0 || x.exitAtCallers(fn, exits, 0), key+":calls-exit", r2, p.InstrPos(st), "after closed = true a return is reachable without calling ExitFunc, and a caller does not call it either on the outcome that reports the first close (the entry stays in the session table)")
 	}
 	nExit := 0
 	for _, fn := range x.srvFns {
@@ -969,6 +1084,82 @@ func (x *c07ctx) r2() {
 	c.Floor("C07.R2:exit-call", nExit, 1)
 }
 
+// exitAtCallers: the close helper fn returns (at `exits`, after closed = true)
+// without having called ExitFunc itself.  Then every caller has to: from each
+// call site every path to a return calls ExitFunc, except over edges on which
+// the helper's boolean result differs from the constant the first-close returns
+// hand back (`if !e.markClosed() { return }`).
+func (x *c07ctx) exitAtCallers(fn *ssa.Function, exits []ssa.Instruction, depth int) bool {
+	if depth >= 2 || !x.liftable(fn) {
+		return false
+	}
+	idx, val := -1, false
+	n := fn.Signature.Results().Len()
+	for i := 0; i < n && idx < 0; i++ {
+		same, seen, k := true, false, false
+		for _, e := range exits {
+			r, isRet := e.(*ssa.Return)
+			if !isRet {
+				same = false
+				break
+			}
+			res := retResults(r)
+			if i >= len(res) || res[i] == nil {
+				same = false
+				break
+			}
+			var kv bool
+			switch {
+			case isConstBool(res[i], true):
+				kv = true
+			case isConstBool(res[i], false):
+				kv = false
+			default:
+				same = false
+			}
+			if !same {
+				break
+			}
+			if seen && kv != k {
+				same = false
+				break
+			}
+			seen, k = true, kv
+		}
+		if same && seen {
+			idx, val = i, k
+		}
+	}
+	for _, cs := range x.la.callers[fn] {
+		call, ok := cs.(*ssa.Call)
+		if !ok {
+			return false
+		}
+		caller := call.Parent()
+		var resv ssa.Value
+		if idx >= 0 {
+			if n == 1 {
+				resv = call
+			} else {
+				resv = extractOf(call, idx)
+			}
+		}
+		notFirst := func(cond ssa.Value, pol bool) bool {
+			return resv != nil && resolve(cond) == resv && pol != val
+		}
+		var left []ssa.Instruction
+		for _, in := range reachFrom(caller, call, func(in ssa.Instruction) bool { return x.callsExit(in, 0) }, notFirst) {
+			if r, isRet := in.(*ssa.Return); isRet {
+				left = append(left, r)
+			}
+		}
+		if len(left) > 0 && !x.exitAtCallers(caller, left, depth+1) {
+			return false
+		}
+	}
+	return true
+}
+
 // ---- R3 every opened socket is owned
 func (x *c07ctx) leaks(acq *ssa.Call, idx, errIdx int) []ssa.Instruction {
 	fn := acq.Parent()
@@ -984,7 +1175,7 @@ func (x *c07ctx) leaks(acq *ssa.Call, idx, errIdx int) []ssa.Instruction {
 	if res == nil {
 		return []ssa.Instruction{acq} // result dropped on the floor
 	}
-	isRes := func(v ssa.Value) bool { return resolve(v) == res || derivedFromNoCall(v, res) }
+	isRes := func(v ssa.Value) bool { return resolve(v) == res || derivedFromNoCall(v, res) || c07defIs(v, res) }
 	stop := func(in ssa.Instruction) bool {
 		if isCloseOf(in, isRes) {
 			return true
@@ -1047,7 +1238,7 @@ func (x *c07ctx) leaks(acq *ssa.Call, idx, errIdx int) []ssa.Instruction {
 			return false
 		}
 		v, isNil, ok := nilTest(cond, pol)
-		return ok && !isNil && resolve(v) == errv
+		return ok && !isNil && c07defIs(v, errv)
 	}
 	var out []ssa.Instruction
 	for _, in := range reachFrom(fn, acq, stop, failEdge) {
@@ -1098,7 +1289,7 @@ func (x *c07ctx) r3openers() {
 			c.Req(len(lk) == 0, x.uniq("C07.R3:owned:"+fnName(fn)+"→"+what), r3, p.InstrPos(call), "the opened socket is neither closed, stored in conn nor returned before:"+detail)
 		})
 	}
-	c.Floor("C07.R3:opener-calls", n, 3)
+	c.Floor("C07.R3:opener-calls", n, 1)
 	// dial closures return only what they opened
 	dials, ok := x.fieldFuncs(x.fDial)
 	if !ok || len(dials) == 0 {
@@ -1194,7 +1385,7 @@ func (x *c07ctx) r4() bool {
 			c.Req(!la.Holds(in, x.fMutex, lockR), fmt.Sprintf("C07.R4:close-outside-table-lock:%s#%d", fnName(fn), ord), r4, p.InstrPos(in), "the session close (whose exit closure write-locks the table) is called with the table mutex held: self-deadlock, nothing is ever cleaned up")
 		})
 	}
-	c.Floor("C07.R4:session-close-calls", nCl, 3)
+	c.Floor("C07.R4:session-close-calls", nCl, 1)
 	// exit closures
 	exits, ok := x.fieldFuncs(x.fExit)
 	if !ok || len(exits) == 0 {
@@ -1291,6 +1482,66 @@ func (x *c07ctx) r4() bool {
 	return true
 }
 
+// createdWithSessID: the call constructs an entry whose ID is msg.SessionID –
+// it is the constructor itself, or a helper (`m.newSession(msg)`) that is handed
+// msg and returns nothing but entries it constructed with that parameter's
+// SessionID.
+func (x *c07ctx) createdWithSessID(call *ssa.Call, msg ssa.Value, depth int) bool {
+	if id := x.ctorArg(call, x.fID); id != nil {
+		return c07isFieldOf(id, x.fSessID, msg)
+	}
+	callee := staticCallee(call)
+	if callee == nil || depth >= 2 || len(callee.Blocks) == 0 || !x.p.IsRepoFn(callee) {
+		return false
+	}
+	idx := c07resultIdx(callee.Signature, func(t types.Type) bool { return namedOf(t) == x.entT })
+	if idx < 0 {
+		return false
+	}
+	// the parameters that receive msg at this call site
+	var prms []*ssa.Parameter
+	for j, prm := range callee.Params {
+		if j < len(call.Call.Args) && resolve(call.Call.Args[j]) == resolve(msg) {
+			prms = append(prms, prm)
+		}
+	}
+	any, good := false, true
+	allInstrs(callee, func(in ssa.Instruction) {
+		r, isRet := in.(*ssa.Return)
+		if !isRet || r.Block() == callee.Recover {
+			return
+		}
+		res := retResults(r)
+		if idx >= len(res) || res[idx] == nil {
+			good = false
+			return
+		}
+		defs, okd := c07defs(res[idx])
+		if !okd || len(defs) == 0 {
+			good = false
+			return
+		}
+		for _, d := range defs {
+			inner, isCall := d.(*ssa.Call)
+			if !isCall {
+				good = false
+				continue
+			}
+			found := false
+			for _, prm := range prms {
+				if x.createdWithSessID(inner, prm, depth+1) {
+					found = true
+				}
+			}
+			if !found {
+				good = false
+			}
+			any = true
+		}
+	})
+	return any && good
+}
+
 // ---- R5 isolation
 func (x *c07ctx) r5() {
 	c, p := x.c, x.p
@@ -1339,8 +1590,7 @@ func (x *c07ctx) r5() {
 					good := isLoadOfField(y.X, x.fM) && c07isFieldOf(y.Index, x.fSessID, msg)
 					c.Req(good, key+":lookup-key", r5, p.InstrPos(y), "the entry is looked up under something other than this datagram's SessionID (datagrams leave through another session's socket)")
 				case *ssa.Call:
-					id := x.ctorArg(y, x.fID)
-					good := id != nil && c07isFieldOf(id, x.fSessID, msg)
+					good := x.createdWithSessID(y, msg, 0)
 					c.Req(good, key+":created-id", r5, p.InstrPos(y), "the entry created on a miss does not get this datagram's SessionID (replies are tagged with a foreign ID)")
 				default:
 					c.Undecided(key+":source", r5, pos, "dispatched entry defined by an unrecognised construct")
@@ -1541,7 +1791,7 @@ func (x *c07ctx) r6r7() {
 			c.Req(leaves, key, r6, p.InstrPos(call), "from the error edge of "+what+" no return is reachable without calling it again (the goroutine never ends once the socket/connection is closed)")
 		})
 	}
-	c.Floor("C07.R6:blocking-receives", nBlock, 3)
+	c.Floor("C07.R6:blocking-receives", nBlock, 1)
 
 	// --- goroutine roots
 	type goSite struct {
@@ -1648,22 +1898,25 @@ func (x *c07ctx) r6r7() {
 	}
 
 	// --- Last refresh in both directions
-	nSet := 0
+	nSetOut, nSetIn := 0, 0
 	for _, fn := range x.srvFns {
 		for _, ci := range callsIn(fn, func(ci ssa.CallInstruction) bool { return x.connInvoke(ci, "WriteTo") }) {
 			in := ci.(ssa.Instruction)
-			stale := false
-			for _, r := range reachFrom(fn, nil, x.isLastSet, nil) {
-				if r == in {
-					stale = true
+			// refreshed on every path to the write – in this function, or (write moved into a helper) before every call of it
+			fresh := x.atSites(in, nil, 0, func(s ssa.Instruction) bool {
+				for _, r := range reachFrom(s.Parent(), nil, x.isLastSet, nil) {
+					if r == s {
+						return false
+					}
 				}
-			}
-			nSet++
-			c.Req(!stale, "C07.R6:activity:client→remote:"+fnName(fn), r6, p.InstrPos(in), "a datagram is forwarded on a path that did not refresh Last with time.Now() (a session with client traffic is swept as idle)")
+				return true
+			})
+			nSetOut++
+			c.Req(fresh, x.uniq("C07.R6:activity:client→remote:"+fnName(fn)), r6, p.InstrPos(in), "a datagram is forwarded on a path that did not refresh Last with time.Now() (a session with client traffic is swept as idle)")
 		}
 		for _, ci := range callsIn(fn, func(ci ssa.CallInstruction) bool { return x.connInvoke(ci, "ReadFrom") }) {
 			in := ci.(ssa.Instruction)
-			nSet++
+			nSetIn++
 			stale := ""
 			for _, r := range reachFrom(fn, in, x.isLastSet, nil) {
 				if x.sends(r, 0) {
@@ -1673,7 +1926,8 @@ func (x *c07ctx) r6r7() {
 			c.Req(stale == "", "C07.R6:activity:remote→client:"+fnName(fn), r6, p.InstrPos(in), "a packet read from the socket is relayed without refreshing Last with time.Now() (a session with remote traffic only is swept as idle): send at "+stale)
 		}
 	}
-	c.Floor("C07.R6:activity", nSet, 2)
+	c.Floor("C07.R6:activity:client→remote", nSetOut, 1)
+	c.Floor("C07.R6:activity:remote→client", nSetIn, 1)
 
 	// --- manager loop exits, sweeper
 	for run, recvCall := range runFns {
